@@ -793,6 +793,201 @@ def kernel_validation(ctx: vlib.Ctx, n: int):
     ctx.count(n=len(cases))
 
 
+def registry_validation(ctx: vlib.Ctx, n: int):
+    """(T) validation of registry_prepare (translated Registry.get up to the handler loop): the real Registry.get
+    is run on a real ValueSpec with one capturing handler; get_real_type is the real substitute_type_params with
+    a sampled TypeVar binding.  The Coq side gets the three primitives as finite tables computed with the real
+    functions on the closure of the declared type, so what is compared is which primitive is applied to what,
+    in which order, and what ends up in annotated_type / type / origin_type."""
+    import datetime
+    import typing
+    from typing import Annotated, Dict, List, NewType, Optional
+    from mashumaro.core.meta.helpers import get_type_origin, is_annotated, substitute_type_params
+    from mashumaro.core.meta.types.common import FieldContext, Registry, ValueSpec
+    rng = ctx.rng
+    T = typing.TypeVar("T")
+    U = typing.TypeVar("U")
+    NT = NewType("NT", int)
+    decls = [Annotated[T, "m"], T, Annotated[List[T], "m"], List[T], Dict[str, T], Annotated[Dict[str, U], "k"], List[int],
+             Annotated[int, "m"], int, NT, Annotated[NT, "m"], Optional[T], Annotated[Annotated[T, "a"], "b"],
+             Annotated[T, ["unhashable"]], datetime.date]
+    binds = [datetime.date, int, List[int], NT, Annotated[int, "inner"], T]
+    stale = [None, None, Annotated[int, "old"], Annotated[T, "m"]]
+
+    def enc(o):
+        return "KNone" if o is None else "(KStr " + vlib.coq_str(repr(o)) + ")"
+
+    cases, descr = [], []
+    for i in range(n):
+        t0 = rng.choice(decls)
+        a0 = rng.choice(stale)
+        mapping = {T: rng.choice(binds), U: rng.choice(binds)}
+        fake = types.SimpleNamespace(get_real_type=lambda name, ft, m=mapping: substitute_type_params(ft, m),
+                                     add_type_modules=lambda *a: None, cls=object)
+        got = {}
+
+        def handler(spec, got=got):
+            got.update(a=spec.annotated_type, t=spec.type, o=spec.origin_type)
+            return "ok"
+        reg = Registry()
+        reg.register(handler)
+        spec = ValueSpec(type=t0, expression="value", builder=fake, field_ctx=FieldContext(name="x", metadata={}),
+                         annotated_type=a0)
+        o0 = spec.origin_type
+        try:
+            reg.get(spec)
+            exp = f"Some ({enc(got['t'])}, {enc(got['o'])}, {enc(got['a'])})"
+        except Exception as e:  # noqa: BLE001
+            exp = "None"
+            got["err"] = type(e).__name__
+        dom = [t0]
+        for _ in range(4):
+            for x in list(dom):
+                for y in (substitute_type_params(x, mapping), get_type_origin(x)):
+                    if not any(y is z or (type(y) is type(z) and repr(y) == repr(z)) for z in dom):
+                        dom.append(y)
+        rt = "[" + "; ".join(f"({enc(x)}, {enc(substitute_type_params(x, mapping))})" for x in dom) + "]"
+        og = "[" + "; ".join(f"({enc(x)}, {enc(get_type_origin(x))})" for x in dom) + "]"
+        an = "[" + "; ".join(enc(x) for x in dom if is_annotated(x)) + "]"
+        cases.append(f"({rt}, {og}, {an}, ({enc(t0)}, {enc(o0)}, {enc(a0)}), {exp})")
+        descr.append(f"#{i} decl={t0!r} T:={mapping[T]!r} stale={a0!r} -> {got}"[:240])
+    name = "K5-registry-get-vs-python"
+    if not ctx.kernel_report.get("K5", {}).get("ok"):
+        ctx.correspondence(name, len(cases), -1, "K5 was not translated")
+        return
+    defs = """
+Definition lk (tb: list (kv * kv)) (v: kv) : kv := match d_get tb v with Some x => x | None => KStr "?outside-closure" end.
+Definition mem (l: list kv) (v: kv) : bool := existsb (kv_eqb v) l.
+Definition reg_ok (c: list (kv * kv) * list (kv * kv) * list kv * (kv * kv * kv) * option (kv * kv * kv)) : bool :=
+  match c with (rt, og, an, (t0, o0, a0), ex) =>
+    match registry_prepare (lk rt) (lk og) (mem an) (mk_spec t0 o0 a0), ex with
+    | Ok sp, Some (t1, o1, a1) => kv_eqb sp (mk_spec t1 o1 a1)
+    | Raise _, None => true
+    | _, _ => false end end.
+"""
+    bad, log = vlib.coq_bad_idx("c10_reg", "PyK_strat Strategies K5Kernel", "From VerifGen Require Import K5.", defs, cases,
+                                "reg_ok", "list (kv * kv) * list (kv * kv) * list kv * (kv * kv * kv) * option (kv * kv * kv)",
+                                shard=300, needs=["theories/K5Kernel.vo"])
+    if bad is None:
+        ctx.correspondence(name, len(cases), -1, log)
+        ctx.not_shown("translation validation K5 (Registry.get)", log)
+    else:
+        ctx.correspondence(name, len(cases), len(bad), str([descr[i] for i in bad[:6]]))
+        if bad:
+            ctx.not_shown("translation validation K5 (Registry.get)", f"cases {[descr[i] for i in bad[:6]]}")
+    ctx.count(n=len(cases))
+
+
+def fields_validation(ctx: vlib.Ctx, n: int):
+    """(T) validation of the translated CodeBuilder.dataclass_fields: real class hierarchies (dataclasses that
+    declare, re-declare with/without field options, or only inherit fields; plain classes in between), the real
+    property on a real CodeBuilder, compared as ordered name -> Field-identity dictionaries.  Also the two slice
+    primitives against CPython."""
+    import dataclasses
+    from mashumaro.core.meta.code.builder import CodeBuilder
+    rng = ctx.rng
+    cases, descr = [], []
+    names = ["x", "y", "z"]
+
+    def build_chain():
+        depth = rng.randint(1, 4)
+        cls = object
+        chain = []
+        uid = 0
+        for lvl in range(depth):
+            ns, ann = {}, {}
+            plain = lvl > 0 and rng.random() < 0.2        # a class that is not decorated with @dataclass
+            for nm in names:
+                r = rng.random()
+                if r < 0.45:
+                    continue
+                ann[nm] = int
+                uid += 1
+                if r < 0.7:
+                    ns[nm] = dataclasses.field(default=uid, metadata={"uid": uid})
+                elif r < 0.85:
+                    ns[nm] = uid                            # plain default, no options
+                elif r < 0.93:
+                    ns[nm] = dataclasses.field(default_factory=list, metadata={"uid": uid})
+                # else: bare annotation (only legal when no earlier field has a default: give a default anyway)
+                else:
+                    ns[nm] = uid
+            ns["__annotations__"] = ann
+            c = type(f"C{lvl}", (cls,) if cls is not object else (), ns)
+            if not plain:
+                c = dataclasses.dataclass(c)
+            chain.append(c)
+            cls = c
+        return chain
+
+    def tag(f, tags):
+        k = id(f)
+        if k not in tags:
+            tags[k] = len(tags) + 1
+        return tags[k]
+
+    def enc_field(f, tags):
+        if f.name is None:      # a Field in the namespace of a class that @dataclass has not processed
+            return f'(KNs [("name", KNone); ("metadata", KInt {tag(f, tags)})])'
+        return f'(mk_field {vlib.coq_str(f.name)} (KInt {tag(f, tags)}))'
+
+    def enc_val(v, tags):
+        if isinstance(v, dataclasses.Field):
+            return enc_field(v, tags)
+        return "(KInt 0)"
+
+    for i in range(n):
+        chain = build_chain()
+        cls = rng.choice(chain)
+        tags = {}
+        try:
+            b = CodeBuilder(cls)
+            real = b.dataclass_fields
+            own = list(getattr(b, "_CodeBuilder__get_field_types")(recursive=False))
+        except Exception as e:  # noqa: BLE001
+            ctx.hist("fields_validation", "skipped:" + type(e).__name__)
+            continue
+        mro = []
+        for c in cls.__mro__:
+            fs = getattr(c, "__dataclass_fields__", None)
+            if fs is None:
+                mro.append("(KNs [])")
+            else:
+                mro.append('(KNs [("__dataclass_fields__", KDict [' + "; ".join(
+                    f"(KStr {vlib.coq_str(k)}, {enc_field(v, tags)})" for k, v in fs.items()) + "])])")
+        nsd = [(k, v) for k, v in cls.__dict__.items() if k in names]
+        ent = [f"(KStr {vlib.coq_str(k)}, {enc_val(v, tags)})" for k, v in nsd]
+        if "__dataclass_fields__" in cls.__dict__:
+            ent.append('(KStr "__dataclass_fields__", KDict [' + "; ".join(
+                f"(KStr {vlib.coq_str(k)}, {enc_field(v, tags)})" for k, v in cls.__dict__["__dataclass_fields__"].items()) + "])")
+        exp = "KDict [" + "; ".join(f"(KStr {vlib.coq_str(k)}, {enc_field(v, tags)})" for k, v in real.items()) + "]"
+        cases.append(f"(dataclass_fields (KTuple [{'; '.join(mro)}]) (KList [{'; '.join('KStr ' + vlib.coq_str(o) for o in own)}]) "
+                     f"(KDict [{'; '.join(ent)}]), Ok ({exp}))")
+        descr.append(f"#{i} depth={len(chain)} cls={cls.__name__} own={own} result={[(k, v.metadata.get('uid')) for k, v in real.items()]}")
+        ctx.hist("fields_validation", f"mro={len(cls.__mro__)}")
+    for ln in range(0, 6):
+        lst = list(range(ln))
+        for prim, py in (("k_slice_rev_tail", lst[-1:0:-1]), ("k_slice_tail", lst[1:])):
+            cases.append(f"({prim} (KTuple [{'; '.join('KInt ' + str(v) for v in lst)}]), "
+                         f"Ok (KList [{'; '.join('KInt ' + str(v) for v in py)}]))")
+            descr.append(f"{prim} on {lst}")
+    name = "K5-dataclass-fields-vs-python"
+    if not ctx.kernel_report.get("K5", {}).get("ok"):
+        ctx.correspondence(name, len(cases), -1, "K5 was not translated")
+        return
+    bad, log = vlib.coq_bad_idx("c10_fields", "PyK_strat Strategies FieldDecl", "From VerifGen Require Import K5.", "", cases,
+                                "fun c => res_kv_eqb (fst c) (snd c)", "res kv * res kv", shard=300,
+                                needs=["theories/FieldDecl.vo", "theories/Strategies.vo", "gen/K5.vo"])
+    if bad is None:
+        ctx.correspondence(name, len(cases), -1, log)
+        ctx.not_shown("translation validation K5 (dataclass_fields)", log)
+    else:
+        ctx.correspondence(name, len(cases), len(bad), str([descr[i] for i in bad[:6]]))
+        if bad:
+            ctx.not_shown("translation validation K5 (dataclass_fields)", f"cases {[descr[i] for i in bad[:6]]}")
+    ctx.count(n=len(cases))
+
+
 # ---------------------------------------------------------------------------------------
 # the run
 # ---------------------------------------------------------------------------------------
@@ -899,21 +1094,25 @@ def run(ctx: vlib.Ctx):
         "the tagged callables identify the slot they are registered at; `is` identity distinguishes pass_through from the built-in copy",
     ]
     ctx.assumptions += ["strategy values are pass_through, dicts with serialize/deserialize entries, or SerializationStrategy instances (other values are ignored by the code; covered only by the kernel validation)"]
-    br = ctx.theorems("props/C10_precedence.vo", ["C10_precedence", "C10_empty", "C10_pass_through", "C10_sym"], kernels=["K5"])
+    br = ctx.theorems("props/C10_precedence.vo", ["C10_precedence", "C10_empty", "C10_pass_through", "C10_sym", "C10_keys"],
+                      kernels=["K5"])
     br2 = ctx.theorems("props/C10_single.vo", ["C10_single_application_partial", "C10_single_application_refuted"], kernels=["K5"])
-    proofs_ok = br.ok and br2.ok and ctx.kernel_report.get("K5", {}).get("ok")
+    br3 = ctx.theorems("props/C10_fields.vo", ["C10_field_decl"], kernels=["K5"])
+    proofs_ok = br.ok and br2.ok and br3.ok and ctx.kernel_report.get("K5", {}).get("ok")
     if proofs_ok and not ctx.quick():
         # second opinion: the independent checker on the compiled property files
         with vlib.Lock("build"):
             rc, out, _ = vlib.run(["timeout", "600", "coqchk", "-silent", "-o", "-Q", "theories", "Verif", "-Q", "gen", "VerifGen",
-                                   "-Q", "props", "VerifProps", "VerifProps.C10_precedence", "VerifProps.C10_single"],
+                                   "-Q", "props", "VerifProps", "VerifProps.C10_precedence", "VerifProps.C10_single", "VerifProps.C10_fields"],
                                   cwd=vlib.COQ, timeout=640)
         ok = rc == 0 and "Axioms: <none>" in out
-        ctx.obligation("coqchk -o (C10_precedence, C10_single): no axioms", ok, out[-600:])
+        ctx.obligation("coqchk -o (C10_precedence, C10_single, C10_fields): no axioms", ok, out[-600:])
         if not ok:
             ctx.not_shown("coqchk", out[-1500:])
 
     kernel_validation(ctx, ctx.budget(120, 1200))
+    registry_validation(ctx, ctx.budget(150, 1500))
+    fields_validation(ctx, ctx.budget(150, 1500))
 
     cases = generate_cases(ctx)
     if not proofs_ok and ctx.quick():
